@@ -128,7 +128,7 @@ def run(ctx: lib.Ctx) -> None:
     import pytezos.rpc.errors as errors_mod  # noqa: F401  (registers the classes)
     import pytezos.rpc.node as node_mod
 
-    ctx.rule = ('exhaustive: every identifier of 1..3 chunks and every proto.x.y.z (thorough: all of 1..5 chunks; quick samples the other 4- and 5-chunk ones) over {proto, a protocol hash, every '
+    ctx.rule = ('exhaustive: every identifier of 1..4 chunks (thorough: 1..5; quick samples 2500 of the 5-chunk ones) over {proto, a protocol hash, every '
                 'component of a registered key, two unregistered words} as the last error of a list of 1..4 errors, against the real registry; '
                 'the same code under 40 (thorough 300) substituted registries keyed by full ids, prefix-less ids, names and categories; empty and '
                 'degenerate identifiers. non-trivial = some variant of the identifier is registered; distinct = distinct (registry, error ids)')
@@ -184,15 +184,13 @@ def run(ctx: lib.Ctx) -> None:
         return ['.'.join(ctx.rng.choice(alpha) for _ in range(ctx.rng.randrange(1, 5))) for _ in range(k)]
 
     # real registry, exhaustive identifiers
-    maxlen = 5 if ctx.thorough else 3
+    maxlen = 5 if ctx.thorough else 4
     for n in range(1, maxlen + 1):
         for t in itertools.product(alpha, repeat=n):
             add(0, prefix_errors() + ['.'.join(t)], f'real:chunks{n}')
     if not ctx.thorough:
-        for t in itertools.product(alpha, repeat=3):   # the property's main shape proto.<hash>.<category>.<name>, and proto.<x>.<y>.<z>
-            add(0, prefix_errors() + ['.'.join(('proto',) + t)], 'real:chunks4')
-        for _ in range(1200):
-            add(0, prefix_errors() + ['.'.join(ctx.rng.choice(alpha) for _ in range(ctx.rng.choice([4, 4, 5])))], 'real:chunks4-5-sampled')
+        for _ in range(2500):
+            add(0, prefix_errors() + ['.'.join(ctx.rng.choice(alpha) for _ in range(5))], 'real:chunks5-sampled')
     # a more specific / differently classified error EARLIER in the list must not win
     for a, b in itertools.product(['proto.X.michelson_v1.script_rejected', 'michelson_v1.bad_return', 'tez.x', 'foo.bar', 'proto.X.michelson_v1.runtime_error'], repeat=2):
         add(0, [a, b], 'real:pairs')
@@ -206,7 +204,7 @@ def run(ctx: lib.Ctx) -> None:
         add(0, [e['id'] for e in fx['witness']['errors']], 'fixed-witness')
         ctx.corpus_cases += 1
     # substituted registries
-    per = ctx.n(50, 400)
+    per = ctx.n(120, 400)
     for ri in range(1, len(regs)):
         add(ri, [], 'empty')
         keys = list(regs[ri])
